@@ -102,6 +102,12 @@ def all_stmts(r, stmts, mode, private_ok=False):
     if mode == "literal_aug":
         return [st("__all__ = %r" % (entries(),)), st("__all__ += %s" % lit(entries(1, 2)))] + \
                ([st("__all__ += %s" % lit(entries(1, 1)))] if r.random() < .3 else [])
+    if mode == "literal_aug_tuple":
+        # tuple-valued __all__ augmented by tuples (tuple += list is a TypeError in Python itself; list += tuple
+        # is covered by literal_aug): all the forms CPython executes
+        tup = lambda es: "(%s)" % "".join("%r, " % e for e in es)
+        return [st("__all__ = %s" % tup(entries(1, 3))), st("__all__ += %s" % tup(entries(1, 2)))] + \
+               ([st("__all__ += %s" % tup(entries(0, 1)))] if r.random() < .4 else [])
     if mode == "nonliteral":
         return [st("__all__ = [n for n in %r]" % (entries(),))]
     if mode == "aug_nonliteral":
@@ -127,7 +133,7 @@ def all_stmts(r, stmts, mode, private_ok=False):
     raise ValueError(mode)
 
 
-ALL_MODES = ["none"] * 9 + ["literal"] * 5 + ["literal_aug"] * 2 + ["nonliteral", "aug_nonliteral",
+ALL_MODES = ["none"] * 9 + ["literal"] * 5 + ["literal_aug"] * 2 + ["literal_aug_tuple"] * 2 + ["nonliteral", "aug_nonliteral",
              "reassigned", "reassigned_bad", "chain", "string", "annotated", "annotated", "annotated_aug",
              "annotated_nonliteral"]
 
@@ -282,7 +288,7 @@ def gen_tree(r, tag, stream):
                 stmts.append(st("from .inner import q", ("q", "mod")))
     # write everything
     private_ok = stream == "f19"
-    pst, pmode = with_all(stmts, private_ok, ["literal", "literal_aug"] if stream == "f19" else ALL_MODES)
+    pst, pmode = with_all(stmts, private_ok, ["literal", "literal_aug", "literal_aug_tuple"] if stream == "f19" else ALL_MODES)
     add(P, P + "/__init__.py", pst, True, pmode)
     for (_, s), sst in subinfo:
         sst2, m = with_all(sst)
@@ -917,7 +923,7 @@ def is_annotated_all(mod):
 
 def expected_exports(m, star):
     """The property's first sentence, from the generator's own record of the module."""
-    lit_modes = {"literal", "literal_aug", "reassigned", "chain", "string", "annotated", "annotated_aug"}
+    lit_modes = {"literal", "literal_aug", "literal_aug_tuple", "reassigned", "chain", "string", "annotated", "annotated_aug"}
     if m["all"] in lit_modes:
         if "exc" in star:
             return None
@@ -960,7 +966,7 @@ def oracle_case(ctx, c, im):
             if bad:
                 ctx.violation("importable", {"case": c, "module": name}, "from %s import x fails for %r" % (name, bad))
         # (2') exports are a subset of what the real star import binds (module has no __all__ or a good one)
-        if isinstance(e, list) and "names" in star and m["all"] in ("none", "literal", "literal_aug", "reassigned", "chain", "string", "annotated", "annotated_aug"):
+        if isinstance(e, list) and "names" in star and m["all"] in ("none", "literal", "literal_aug", "literal_aug_tuple", "reassigned", "chain", "string", "annotated", "annotated_aug"):
             extra = [x for x in e if x not in star["names"]]
             if extra:
                 ctx.violation("exports_subset_of_star", {"case": c, "module": name}, "exported but not bound by the star import: %r" % extra)
